@@ -311,10 +311,12 @@ package table
 // the local AS for an empty or confederation-only path
 //@ func (*ROATable).Validate
 //@   requires rt != nil && path != nil
-//@   claims post at-call
+//@   claims post at-call at-return
 //@   at-call tree.WalkMatch( requires (asPath == nil || len(asPath.Value) == 0) ==> as == ownAs
 //@   at-call tree.WalkMatch( requires asPath != nil && len(asPath.Value) > 0 && (asPath.Value[len(asPath.Value)-1].GetType() == bgp.BGP_ASPATH_ATTR_TYPE_CONFED_SEQ || asPath.Value[len(asPath.Value)-1].GetType() == bgp.BGP_ASPATH_ATTR_TYPE_CONFED_SET) ==> as == ownAs
 //@   at-call tree.WalkMatch( requires asPath != nil && len(asPath.Value) > 0 ==> asPath.Value[len(asPath.Value)-1].GetType() != bgp.BGP_ASPATH_ATTR_TYPE_SET
+// the early NotFound return (no lookup) is taken only for a last segment that is neither a SEQUENCE nor a confederation segment
+//@   at-return requires param.GetType() != bgp.BGP_ASPATH_ATTR_TYPE_SEQ && param.GetType() != bgp.BGP_ASPATH_ATTR_TYPE_CONFED_SEQ && param.GetType() != bgp.BGP_ASPATH_ATTR_TYPE_CONFED_SET
 //@   ensures result != nil ==> (result.Status == oc.RPKI_VALIDATION_RESULT_TYPE_VALID <==> len(result.Matched) != 0)
 //@   ensures result != nil ==> (result.Status == oc.RPKI_VALIDATION_RESULT_TYPE_INVALID <==> len(result.Matched) == 0 && (len(result.UnmatchedAs) != 0 || len(result.UnmatchedLength) != 0))
 //@   ensures result != nil ==> (result.Status == oc.RPKI_VALIDATION_RESULT_TYPE_NOT_FOUND <==> len(result.Matched) == 0 && len(result.UnmatchedAs) == 0 && len(result.UnmatchedLength) == 0)
@@ -406,3 +408,52 @@ package table
 //@   at-call r.getDefaultPolicy( requires result == ROUTE_TYPE_NONE
 //@   at-return requires before == nil ==> ret0 == nil
 //@   at-return requires before != nil && !old(before.IsWithdraw) ==> (result == ROUTE_TYPE_ACCEPT ==> ret0 == after) && (result != ROUTE_TYPE_ACCEPT ==> ret0 == nil)
+
+// =============================================================================================
+// C17 — VRF import: a VPN route is visible in a VRF iff one of its transitive route targets is imported
+// =============================================================================================
+//@ props C17
+//@ func (*Path).GetExtCommunities
+//@   pure
+//@   spec-only
+// from C17 / RFC 7153: transitive types have the 0x40 bit clear
+//@ func isTransitiveType
+//@   requires ec != nil
+//@   pure
+//@   modifies nothing
+//@   ensures result == (ec.GetTypes() < bgp.EC_TYPE_NON_TRANSITIVE_TWO_OCTET_AS_SPECIFIC)
+//@ func CanImportToVrf
+//@   requires v != nil && path != nil
+//@   requires forall k int :: 0 <= k && k < len(path.GetExtCommunities()) ==> path.GetExtCommunities()[k] != nil
+//@   claims at-return step post
+//@   at-return requires ret0 ==> isTransitiveType(x) && err == nil && found
+//@   loop 0 step !(isTransitiveType(x) && err == nil && found)
+//@ func (*RouteTargetMembershipHandler).HasDefaultRouteTarget
+//@   pure
+//@   spec-only
+//@ func (*RouteTargetMembershipHandler).HasRouteTarget
+//@   pure
+//@   spec-only
+//@ props C09
+//@ func (*Path).GetClusterList
+//@   pure
+//@   spec-only
+//@ func (*Path).GetAsList
+//@   pure
+//@   spec-only
+//@ func (*Path).String
+//@   pure
+//@   spec-only
+
+// =============================================================================================
+// C09 — "producing a peer's copy never alters the stored route"
+// =============================================================================================
+//@ props C09
+// from C09: "to route-server clients the route is unchanged"; every other peer type gets a fresh clone
+// (the frame "no write into pre-existing memory" of the rewriting helpers is NOT claimed: ownership of the
+// clone's bookkeeping slices is not expressible across calls with the present contract language - DESIGN.md 8)
+//@ func UpdatePathAttrs
+//@   requires info != nil && original != nil && global != nil && original.GetSource() != nil
+//@   claims at-return
+//@   at-return requires old(info.RouteServerClient) ==> ret0 == original
+//@   at-return requires !old(info.RouteServerClient) ==> ret0 != nil && fresh(ret0)
